@@ -161,12 +161,17 @@ def rings_flat(kind, e, T):
     return [[float(c) for p in r for c in p] for r in rings]
 
 
-def check_chunk(col, kind, elems, st, T, chunk_id=0):
+def check_chunk(col, kind, elems, st, T, chunk_id=0, premodel=False):
     from spatialpandas import GeoSeries
     s = T[0]
     n0 = len(elems)
     # missing rows at front / middle / back
     model = [None] + list(elems[:n0 // 2]) + [None] + list(elems[n0 // 2:]) + [None]
+    if premodel:
+        model = list(elems)
+    elif len(model) > 20:
+        for i in (7, 9, 15, 17):          # missing rows on both sides of the bitmap's byte boundaries
+            model[i] = None
     case = {"kind": kind, "subtype": st, "T": list(T), "elems": [jelem(e) for e in model]}
     try:
         arr0 = L.make_array(kind, model, st, T)
@@ -176,6 +181,10 @@ def check_chunk(col, kind, elems, st, T, chunk_id=0):
     exp = [expected_measures(kind, e, s) for e in model]
     views = [("full", arr0, 0, len(model)), ("slice[1:]", arr0[1:], 1, len(model)),
              ("slice[2:-1]", arr0[2:-1], 2, len(model) - 1)]
+    # slices starting on byte boundaries of the validity bitmap (more missing rows are placed around them below)
+    for off in (8, 16):
+        if len(model) > off + 2:
+            views.append((f"slice[{off}:]", arr0[off:], off, len(model)))
     for vname, arr, a, b in views:
         c = dict(case, view=vname)
         try:
@@ -314,8 +323,5 @@ def run(ctx):
 def replay(ctx, case):
     col = core.Collector()
     model = [telem(e) for e in case["elems"]]
-    # strip the three inserted missing rows
-    n = len(model) - 3
-    elems = model[1:1 + n // 2] + model[2 + n // 2:-1]
-    check_chunk(col, case["kind"], elems, case["subtype"], tuple(case["T"]))
+    check_chunk(col, case["kind"], model, case["subtype"], tuple(case["T"]), premodel=True)
     return col.violations
